@@ -10,6 +10,24 @@ def consts(insts, stop, kv='{0,3}', sv='{0}'):
                 Scen='{"base","high"}', Ops=OPS, Adapter="FALSE", Compress='FALSE', Kinds='{}', Creds='{}', Dev='{}')
 
 
+def stream_enumeration():
+    """every interleaving of 3 further stepping / stream requests after: two instances started, both in a session, one stream open"""
+    c = consts('{"i1","i2"}', 3, kv='{0,3}', sv='{0,4}')
+    c["Ops"] = '{"Start","Begin","Step","Stream","Results","Steps"}'
+    c["Scen"] = '{"base"}'
+    STREAM = ('MC_Stream == LET n == Len(hist\') h == hist\'[n] IN\n'
+              '   /\\ (n \\in {1, 2} => h.op = "Start")\n'
+              '   /\\ (n \\in {3, 4} => h.op = "Begin" /\\ h.status = 200)\n'
+              '   /\\ (n = 5 => h.op = "StreamOpen" /\\ h.status = 200)\n'
+              '   /\\ (n >= 6 => h.op \\in {"Step", "StreamNext", "StreamClose", "StreamOpen", "Steps"})\n')
+    hx, _ = gen.histories("Server", c, 8, defs=STREAM, extra_cfg={"action_constraints": ["MC_Stream"]})
+    return hx
+
+
+def warm():
+    print("Server stream interleavings: %d" % len(stream_enumeration()))
+
+
 def solo(hist, i):
     """the requests addressed to instance i only"""
     return [h for h in hist if h.get("i") == i]
@@ -23,6 +41,13 @@ def run(tier, replay_file=None):
     if mc.violation:
         R.violation("spec:" + mc.violation, {"trace": mc.trace[:3000]})
     R.cov["states"], R.cov["transitions"] = mc.distinct, mc.generated
+    cs = consts('{"i1","i2"}', 2, kv='{0,3}', sv='{0,4}')
+    cs["Ops"] = '{"Start","Begin","Step","Stream","Results"}'; cs["Scen"] = '{"base"}'
+    ms = tlc.run("Server", dict(cs, L='0'), invariants=["Continuity", "AliveOK"], properties=["Isolated"], view="View", spec="Spec", timeout=3000)
+    if ms.violation:
+        R.violation("spec:" + ms.violation, {"trace": ms.trace[:3000]})
+    R.cov["states"] += ms.distinct
+    R.cov["transitions"] += ms.generated
     # spec -> code: interleavings of requests to 2-3 instances on one server, each response compared with the
     # spec AND with a solo replay of that instance's own requests on a fresh server
     sets = []
@@ -30,6 +55,19 @@ def run(tier, replay_file=None):
         hs, _ = gen.histories("Server", consts(insts, 3, sv=sv), 16 if quick else 28, simulate=14 if quick else 150,
                               seed=common.seed() * 10 + n + 1, cache=False)
         sets.append((hs, bc))
+    # open stream-steps responses: while the stream of one instance is open (the client reads result by result), the other
+    # instances are used normally; a second stepping request on the streaming instance itself is refused
+    c = consts('{"i1","i2"}', 3, kv='{0,3}', sv='{0,4}')
+    c["Ops"] = '{"Start","Begin","Step","Stream","Results","Steps"}'
+    c["Scen"] = '{"base"}'
+    hs, _ = gen.histories("Server", c, 14 if quick else 22, simulate=40 if quick else 400, seed=common.seed() * 10 + 8, cache=False)
+    sets.append((hs, True))
+    R.cov["stream_histories"] = len(hs)
+    hx = stream_enumeration()
+    import random as _r
+    hx = hx if not quick else _r.Random(common.seed()).sample(hx, min(len(hx), 150))
+    sets.append((hx, True))
+    R.cov["stream_interleavings_enumerated"] = len(hx)
     # instance life cycles: an instance that began a session with settings is stopped (or just sits there) while another
     # one is started and begins a session without settings
     c = consts('{"i1","i2"}', 3, kv='{0,3}', sv='{0}')
